@@ -65,3 +65,45 @@ def run(prop, tier, seed, replay=None):
     if not replay and (served < 100 or rejects < 100):
         raise Internal("too few pieces served (%d) or rejects (%d): vacuous" % (served, rejects))
     return v.finish()
+
+
+# C01's clause "no unverified or wrong byte ever leaves through the upload path": the same binding,
+# keeping only the observations about the payload.
+C01_KEYS = ("piece-wrong-payload", "piece-unverified")
+
+
+def payload_check(v, tier, seed, scen=None):
+    if scen is None:
+        n = 700 if tier == "quick" else 8000
+        r = run_tlc("MCUpload", "Upload_sim.cfg", workers=1, simulate=n, depth=31, seed=seed + 101, timeout=3000)
+        require_ok(r, "Upload simulation (payload check)")
+        scen = [{"steps": json.loads(p), "binding": "upload"} for p in sorted(set(r.lines("BEH")))]
+        os.unlink(r.outfile)
+        if len(scen) < n // 2:
+            raise Internal("Upload simulation: only %d behaviours" % len(scen))
+        for i, sc in enumerate(scen):
+            sc["id"] = i
+    vh = vlib.build_harness()
+    wd = vlib.scratch("upl1-")
+    sf, rf = os.path.join(wd, "scen.ndjson"), os.path.join(wd, "res.ndjson")
+    with open(sf, "w") as f:
+        for sc in scen:
+            f.write(json.dumps(sc, separators=(",", ":")) + "\n")
+    out, err = vlib.run_harness(vh, ["upload", "-in", sf, "-out", rf, "-parallel", "12", "-timeout", "60"], timeout=3600)
+    log(out.strip())
+    served = 0
+    for line in open(rf):
+        res = json.loads(line)
+        sc = scen[res["index"]]
+        if res.get("crash") or res.get("hang"):
+            continue    # C16's business
+        o = res["out"]
+        for vi in o.get("violations") or []:
+            if vi["key"] in C01_KEYS:
+                v.violation("upload:" + vi["key"], vi["what"] + " (upload scenario %s step %d)" % (sc["id"], vi["step"]), sc)
+        served += o.get("pieces_served", 0)
+    v.cov["upload_path"] = {"behaviours": len(scen), "pieces_served": served,
+                            "rule": "Upload.tla behaviours on the real upload handlers; every Piece payload compared with the verified content of the requested range"}
+    if len(scen) > 100 and served < 50:
+        raise Internal("upload payload check: only %d pieces served (vacuous)" % served)
+    return len(scen)
